@@ -104,6 +104,7 @@ def make_persona(year, seed, archetype=None):
     """-> persona dict (JSON-able): {'year', 'archetype', 'seed', 'over': {qualified name: text}, 'forms': [requested]}"""
     rng = core.Rng(core.h64('persona', year, seed))
     arch = archetype or rng.pick(ARCHETYPES)
+    all_statuses = list(catalogue(year)['1040']['inputs']['filing_status']['members'])
     over = {}
     forms = ['1040']
     wages = rng.pick([62000, 75000, 88000.5, 120000, 43000.25])
@@ -174,7 +175,7 @@ def make_persona(year, seed, archetype=None):
         over['1040_s8812.number_under_17'] = str(nctc)
     elif arch == 's1_additional_income':
         over['1040.schedule_1_additional_income'] = 'yes'
-        status = rng.pick(STATUSES)
+        status = rng.pick(all_statuses)
     elif arch == 's1_adjustments':
         over['1040.schedule_1_income_adjustments'] = 'yes'
         over['1040_s1.educator_expenses'] = str(rng.pick([0, 120, 250]))
@@ -189,6 +190,7 @@ def make_persona(year, seed, archetype=None):
         over['1099-div:0.box_1b'] = '100'
         over['1099-div:0.box_5'] = str(rng.pick([50, 300]))
     elif arch == 'foreign_tax':
+        status = rng.pick(all_statuses)
         over['1040.number_1099-int'] = '1'
         over['1099-int:0.payer'] = 'Intl Bank'
         over['1099-int:0.box_1'] = '700'
@@ -231,6 +233,13 @@ def make_persona(year, seed, archetype=None):
     elif arch == 'nc_resident':
         forms = ['1040', 'nc_d-400']
         status = rng.pick(['Single', 'MarriedFilingJointly'])
+        if rng.chance(0.5):
+            # Schedule S takes part
+            over['nc_d-400.deductions_from_agi'] = 'yes'
+            over['nc_d-400_ss.interest_us_obligations'] = str(rng.pick([0, 120.5, 900]))
+        if rng.chance(0.3):
+            over['nc_d-400.additions_to_agi'] = 'yes'
+            over['nc_d-400_ss.interest_income_not_nc'] = str(rng.pick([0, 75]))
         over['1040.number_1098'] = '1'
         over['1098:0.box_1'] = str(rng.pick([4000, 9000.5]))
     elif arch == 'retiree_1099r':
